@@ -99,6 +99,7 @@ C["C18"]["text"]+=" Expiry pairs: two exports (kinds, validities, one or two ori
 C["C11"]["text"]+=" Family F11: the store already holds what this client uploads (another client with a shard cache of its own stored it); the upload must still be recorded, so that the client's own repeat session transfers nothing."
 C["C10"]["text"]+=" The consolidation menu holds a xorbs-only shard without lookup tables (footer counts 0)."
 C["C01"]["text"]+=" C01x also runs the concurrent scenario [abc,de,(empty)] under one upload permit."
+C["C11"]["text"]+=" C11c also hands pre-written shard files to register_shards from two threads (register || register) and requires every registered shard to answer for its chunks."
 C["C03"]["text"]+=" F2 also interleaves two files of which one repeats a run of its own pending chunks (also fed in two halves) while the other's xorb teaches the session shard part of that run."
 C["C18"]["text"]+=" Expiry kind 3: a keyed export re-expired after it has aged (the validity counts from the re-export)."
 C["C07"]["text"]+=" The stream decoder is also fed every piece as a non-contiguous buffer (a chain of its two halves)."
